@@ -13,7 +13,7 @@ NAMES = ["a", "b", "c", "d", "e1", "f_", "gg", "h", "i", "k", "m", "n"]
 UNAMES = ["é", "ñá", "λ", "中"]
 NUMBERS = ["1", "2.5", "0x1F", "3j", "1_000", "1e3", ".5", "0o7", "0b11", "7.", "0", "00", "1E-2", "4.5J"]
 STRINGS = ["'s'", '"t"', "b'x'", "r'\\d'", "'''m'''", "'a' 'b'", "u'u'", '"""q"""', "'\\n'", "rb'z'", "''", '"é"',
-           "'a' \"b\" 'c'", "'x'   'y'"]
+           "'a' \"b\" 'c'", "'x'   'y'", "U'v'", "R'\\w'", "B'y'", "Rb'z'", "U'a' 'b'", "bR'c'"]
 CONST_ATOMS = ["True", "False", "None", "..."]
 BLOCKS = ["pass\n", "\n{i}pass\n", "\n{i}x = 1\n{i}y\n", "x = 1; y\n", "\n{i}return\n"]
 MACROS = {
@@ -139,8 +139,8 @@ class Concretiser:
                     gap = ""
                 elif layout == "wide":
                     gap = rng.choice([" ", "  ", "\t", " \t "])
-                elif layout == "cont" and depth == 0 and rng.random() < 0.3:
-                    gap = " \\" + nl + rng.choice(["", "  ", "\t"])
+                elif layout == "cont" and rng.random() < 0.3:
+                    gap = " \\" + nl + rng.choice(["", "  ", "\t"])   # also inside brackets (a redundant but legal continuation)
                 elif layout in ("cont", "nlbrackets") and depth > 0 and rng.random() < 0.4:
                     gap = rng.choice([nl, nl + "   ", "  # c" + nl + " "])
                 out.append(gap)
